@@ -8,24 +8,33 @@ def main():
     args = sys.argv[1:]
     if args[:1] == ["-n"]:
         n = args[1]; args = args[2:]
-    out = tempfile.mktemp(suffix=".xml", dir="/tmp")
     env = {k: v for k, v in os.environ.items() if k not in ("PYHF_VERIF", "PYTHONPATH", "PYHF_SRC")}
-    cmd = ["/venv/bin/python", "-m", "pytest", "-q", "-p", "no:cacheprovider", "--timeout=900",
-           "--continue-on-collection-errors", f"--junitxml={out}", "-n", n] + args
-    r = subprocess.run(cmd, cwd="/repo", env=env, stdout=subprocess.PIPE, stderr=subprocess.STDOUT, text=True)
-    print(r.stdout[-600:])
     base = json.load(open("/root/.vp/BASELINE.json"))
     stable = set(base["stable_pass"])
     passed, failed = set(), set()
-    for tc in ET.parse(out).getroot().iter("testcase"):
-        name = f"{tc.get('classname')}::{tc.get('name')}"
-        bad = any(c.tag in ("failure", "error") for c in tc)
-        skipped = any(c.tag == "skipped" for c in tc)
-        if bad:
-            failed.add(name)
-        elif not skipped:
-            passed.add(name)
-    os.remove(out)
+    serial = ["tests/test_cli.py", "tests/test_examples.py", "tests/test_scripts.py"]
+    runs = []
+    if args:
+        runs.append((["-n", n] + args, env))
+    else:
+        runs.append((["-n", n] + [f"--ignore={f}" for f in serial], env))
+        # order-dependent files: one process, heavy modules pre-imported as in the single-process baseline
+        runs.append((["-p", "preload_plugin"] + serial, dict(env, PYTHONPATH=os.path.dirname(os.path.abspath(__file__)))))
+    for extra, e in runs:
+        out = tempfile.mktemp(suffix=".xml", dir="/tmp")
+        cmd = ["/venv/bin/python", "-m", "pytest", "-q", "-p", "no:cacheprovider", "--timeout=900",
+               "--continue-on-collection-errors", f"--junitxml={out}"] + extra
+        r = subprocess.run(cmd, cwd="/repo", env=e, stdout=subprocess.PIPE, stderr=subprocess.STDOUT, text=True)
+        print(r.stdout[-300:])
+        for tc in ET.parse(out).getroot().iter("testcase"):
+            name = f"{tc.get('classname')}::{tc.get('name')}"
+            bad = any(c.tag in ("failure", "error") for c in tc)
+            skipped = any(c.tag == "skipped" for c in tc)
+            if bad:
+                failed.add(name)
+            elif not skipped:
+                passed.add(name)
+        os.remove(out)
     ran = passed | failed
     regress = sorted(t for t in stable if t in failed)
     missing = sorted(t for t in stable if t not in ran) if not args else []
